@@ -162,36 +162,43 @@ def dispatch(rep, ex: Explorer, report=True):
     qual = "inference.inference_manager.create_inference_instance"
     site = fn_label(ex.prog, qual)
 
-    def setup(I):
-        bb = make_belief_base(I)
-        es = make_epistemic_state(I, bb, "?", extra={"inference_system": Sym(("inference_system",), "str")})
-        return [es], {}
-
-    paths = ex.run(qual, setup, summaries={}, key="dispatch")
+    # decided by evaluating the factory on every operator name the manager documents (and a name it does not know) with
+    # a z3 and two non-z3 back-end names: the table is what it returns, however the selection is written
     table = {}
-    for p in paths:
-        sysname, z3 = None, None
-        for k, v in p.decisions:
-            if k[0] == "cmp" and k[1] == "==" and ("inference_system",) in k[2:]:
-                other = [x for x in k[2:] if x != ("inference_system",)][0]
-                if v:
-                    sysname = other[1] if isinstance(other, tuple) and other[0] == "c" else other
-            elif k[0] == "cmp" and k[1] == "==" and ("pmaxsat_solver",) in k[2:]:
-                other = [x for x in k[2:] if x != ("pmaxsat_solver",)][0]
-                if other == ("c", "z3"):
-                    z3 = v
+    names = ("p-entailment", "system-z", "system-w", "c-inference", "lex_inf", "no-such-operator")
+    for name in names:
+        per_backend = {}
+        for backend in ("z3", "rc2", "rc2-g4", ""):
+            def setup(I, name=name, backend=backend):
+                bb = make_belief_base(I)
+                es = make_epistemic_state(I, bb, name, pmaxsat=Const(backend))
+                return [es], {}
+
+            paths = ex.run(qual, setup, summaries={}, key=f"dispatch-{name}-{backend}")
+            outs = set()
+            for p in paths:
+                if p.outcome[0] == "return" and isinstance(p.outcome[1], Ref):
+                    o = p.state.heap[p.outcome[1].oid]
+                    outs.add(o.cls if isinstance(o, HObj) else None)
+                elif p.outcome[0] == "raise":
+                    outs.add("raise")
                 else:
-                    raise AnalysisError(f"{site}: back-end selected by comparison with {other!r}")
-            else:
-                raise AnalysisError(f"{site}: dispatch depends on {k!r}")
-        if p.outcome[0] == "return" and isinstance(p.outcome[1], Ref):
-            o = p.state.heap[p.outcome[1].oid]
-            cls = o.cls if isinstance(o, HObj) else None
-        elif p.outcome[0] == "raise":
-            cls = "raise"
+                    outs.add(repr(p.outcome))
+            if len(outs) != 1:
+                # (several paths with one and the same result differ in something else, e.g. whether a log record is written)
+                raise AnalysisError(f"{site}: the class selected for operator {name!r} and back-end {backend!r} depends on {[k for p in paths for k, v in p.decisions][:2]!r}")
+            per_backend[backend] = outs.pop()
+        key_name = None if name == "no-such-operator" else name
+        non_z3 = {per_backend[b_] for b_ in ("rc2", "rc2-g4", "")}
+        if len(non_z3) == 1 and per_backend["z3"] in non_z3:
+            table[(key_name, None)] = per_backend["z3"]
+        elif len(non_z3) == 1:
+            table[(key_name, True)] = per_backend["z3"]
+            table[(key_name, False)] = non_z3.pop()
         else:
-            cls = repr(p.outcome)
-        table[(sysname, z3)] = cls
+            table[(key_name, True)] = per_backend["z3"]
+            for b_ in ("rc2", "rc2-g4", ""):
+                table[(key_name, f"back-end {b_!r}")] = per_backend[b_]
     want = {
         ("p-entailment", None): "PEntailment", ("system-z", None): "SystemZ",
         ("system-w", True): "SystemWZ3", ("system-w", False): "SystemW",
@@ -466,18 +473,54 @@ def timeout_flow(rep, ex: Explorer):
     if not base_keys:
         raise AnalysisError("create_epistemic_state: no state keys found")
 
-    def state_reads(node):
+    def aliases_of(fnode):
+        """local names bound to the state (state = self.epistemic_state)"""
+        out = set()
+        for n in ast.walk(fnode):
+            if isinstance(n, ast.Assign) and len(n.targets) == 1 and isinstance(n.targets[0], ast.Name) and isinstance(n.value, (ast.Attribute, ast.Name)) and "epistemic_state" in ast.unparse(n.value):
+                out.add(n.targets[0].id)
+        return out
+
+    def is_state(expr, aliases):
+        if isinstance(expr, ast.Subscript):
+            return False
+        return "epistemic_state" in ast.unparse(expr) or (isinstance(expr, ast.Name) and expr.id in aliases)
+
+    def state_reads(node, aliases):
         out = []
         for n in ast.walk(node):
-            if isinstance(n, ast.Subscript) and isinstance(n.ctx, ast.Load) and isinstance(n.slice, ast.Constant) and isinstance(n.slice.value, str) and "epistemic_state" in ast.unparse(n.value) and not isinstance(n.value, ast.Subscript):
+            if isinstance(n, ast.Subscript) and isinstance(n.ctx, ast.Load) and isinstance(n.slice, ast.Constant) and isinstance(n.slice.value, str) and is_state(n.value, aliases):
                 out.append(n)
+        return out
+
+    def state_writes(fnode, aliases):
+        return {n.slice.value for n in ast.walk(fnode) if isinstance(n, ast.Subscript) and isinstance(n.ctx, ast.Store) and isinstance(n.slice, ast.Constant) and isinstance(n.slice.value, str) and is_state(n.value, aliases)}
+
+    by_name = {}
+    for fi in funcs:
+        by_name.setdefault(fi.node.name, []).append(fi)
+
+    def handler_reads(fi, stmts, depth=0):
+        """(function, read node, keys written in that function) for the statements of a converting handler, following the
+        helpers it calls (what they read is read inside the handler as well)"""
+        al = aliases_of(fi.node)
+        wr = state_writes(fi.node, al)
+        out = []
+        for st in stmts:
+            for r in state_reads(st, al):
+                out.append((fi, r, wr))
+            if depth < 3:
+                for nm in called_names(st):
+                    for callee in by_name.get(nm, []):
+                        if callee.qualname in helpers and callee.qualname != fi.qualname and callee.qualname not in wrappers:
+                            for f2, r2, w2 in handler_reads(callee, callee.node.body, depth + 1):
+                                out.append((f2, r2, w2 | wr))
         return out
 
     n_reads = 0
     for fi in funcs:
         if fi.qualname not in helpers:
             continue
-        written = {n.slice.value for n in ast.walk(fi.node) if isinstance(n, ast.Subscript) and isinstance(n.ctx, ast.Store) and isinstance(n.slice, ast.Constant) and isinstance(n.slice.value, str) and "epistemic_state" in ast.unparse(n.value)}
         for t in ast.walk(fi.node):
             if not isinstance(t, ast.Try):
                 continue
@@ -485,14 +528,13 @@ def timeout_flow(rep, ex: Explorer):
                 types = [ast.unparse(x).rsplit(".", 1)[-1] for x in ((h.type.elts if isinstance(h.type, ast.Tuple) else [h.type]) if h.type is not None else [])]
                 if "TimeoutError" not in types:
                     continue
-                for st in h.body:
-                    for r in state_reads(st):
-                        n_reads += 1
-                        k = r.slice.value
-                        # keys written in this handler before the read count as present
-                        rep.check(k in base_keys or k in written, "TIMEOUT.flow", f"{fi.path}:{fi.qualname[len(fi.module) + 1:]}:{r.lineno}", f"handler reads state[{k!r}]",
-                                  "what the converting handler reads from the state exists for every operator (otherwise the KeyError escapes instead of the flagged row)",
-                                  extracted=f"state[{k!r}] is not among the keys every state has ({', '.join(sorted(base_keys))})", required="a key created with the state or written in this function", function=f"{fi.path}:{fi.qualname[len(fi.module) + 1:]}")
+                for f2, r, written in handler_reads(fi, h.body):
+                    n_reads += 1
+                    k = r.slice.value
+                    # keys written in the function (or the handler that called it) count as present
+                    rep.check(k in base_keys or k in written, "TIMEOUT.flow", f"{f2.path}:{f2.qualname[len(f2.module) + 1:]}:{r.lineno}", f"handler reads state[{k!r}]",
+                              "what the converting handler reads from the state exists for every operator (otherwise the KeyError escapes instead of the flagged row)",
+                              extracted=f"state[{k!r}] is not among the keys every state has ({', '.join(sorted(base_keys))})", required="a key created with the state or written in this function", function=f"{f2.path}:{f2.qualname[len(f2.module) + 1:]}")
     rep.floor("state reads inside converting handlers", n_reads, 1)
     # TIMEOUT.guarded-raise: the three raise sites are decided by the path rules (MCS.loop / Z3MCS.loop / CHECK.three-way);
     # a raise site anywhere else has no rule that reads its guard: recognised guard forms pass, anything else is undecided
@@ -816,144 +858,115 @@ def _check_tuple(rep, site, ev, outcome, evar, case=None):
 
 
 def _multi(rep, ex: Explorer, stats):
+    """The parallel path, decided by evaluating multi_inference on concrete query mappings (no query, one, two; thorough:
+    three, with keys that are neither consecutive nor in order) with everything the processes do left open: whether a
+    worker is still alive after the timed join and whether it left a row in the shared mapping are free for every query.
+    Whatever they turn out to be: one worker per query with (key, that query, the shared mapping, the budget), started and
+    joined; a straggler is terminated and joined; the result maps exactly the submitted keys - a straggler's to a flagged
+    row, otherwise to the row found in the shared mapping under that key, or a flagged row when there is none."""
+    from .. import depth as _depth
+    from ..absvals import FuncV
+
     prog = ex.prog
     qual = f"{INF}.multi_inference"
     site = fn_label(prog, qual)
+    keysets = [(), (4,), (7, 3)] + ([(5, 9, 2)] if _depth.thorough() else [])
+    n_start = n_rows = 0
+    for keys in keysets:
+        held = {}
 
-    def setup(I):
-        s, es, bb = _self(I)
-        return [s, _queries(I), Sym("timeout", "int")], {}
+        def setup(I, keys=keys, held=held):
+            s, es, bb = _self(I)
+            held["queries"] = I.alloc(HDict(entries={k: ElemV(("q", k), "cond") for k in keys}))
+            return [s, held["queries"], Sym("timeout", "int")], {}
 
-    paths = ex.run(qual, setup, summaries=SUMMARIES, key="multi")
-    n_start = n_store = 0
-    QF = ("members", ("keys", "Q"))
-    from ..absvals import FuncV
-    shared = set()
-    for p in paths:
-        for ev, Q in iter_events(p.events):
-            if ev.kind == "mp.dict" and isinstance(ev.obj, Ref):
-                shared.add(ev.obj.oid)
-    for p in paths:
-        for ev, Q in iter_events(p.events):
-            if ev.kind == "loop":
-                for case in ev.cases:
-                    evs = [e for e, _ in iter_events(case.events)]
-                    starts = [e for e in evs if e.kind == "mp.start"]
-                    joins = [e for e in evs if e.kind == "mp.join"]
-                    terms = [e for e in evs if e.kind == "mp.terminate"]
-                    stores = [e for e in evs if e.kind == "dict.set"]
-                    procs = [e for e in evs if e.kind == "mp.process"]
-                    for e in procs:
-                        n_start += 1
-                        a = e.args
-                        items = a.items if isinstance(a, TupleV) else ()
-                        ok = len(items) >= 2 and isinstance(items[0], ElemV) and items[0].role == "key" and isinstance(items[1], ElemV) and items[1].role == "cond" and items[0].var == items[1].var
-                        rep.check(ok, "PAR.key", f"{site}:{e.node.lineno}", "worker arguments", "each worker receives the query together with its own key",
-                                  extracted=repr(items[:2]), required="(key of q, q)", function=site)
-                        rep.check(ev.fam == QF and (not ok or items[0].var == ev.evar), "PAR.key", f"{site}:{e.node.lineno}", "one worker per submitted query", "workers are created in a loop over the submitted queries",
-                                  extracted=F.show_desc(ev.fam), required="the submitted queries", function=site)
-                        okc = len(items) == 4 and isinstance(items[2], Ref) and items[2].oid in shared and items[3] == Sym("timeout", "int")
-                        rep.check(okc, "PAR.key", f"{site}:{e.node.lineno}", "worker container and budget", "each worker gets the shared result mapping and the per-query budget",
-                                  extracted=repr(items[2:]), required="(shared mapping, timeout)", function=site)
-                        rep.check(isinstance(e.target, FuncV) and e.target.qualname == f"{INF}._multi_inference_worker", "PAR.key", f"{site}:{e.node.lineno}", "worker function", "the process runs the worker wrapper",
-                                  extracted=repr(e.target), required="_multi_inference_worker", function=site)
-                        rep.check(len(starts) == 1, "PAR.join", f"{site}:{e.node.lineno}", "process started", "every created process is started", extracted=f"{len(starts)} start(s)", required="1", function=site)
-                    if joins:
-                        alive = None
-                        for k, v in case.guard:
-                            if k[0] == "alive":
-                                alive = v
-                        if alive is True:
-                            # still running after the timed join: terminate, join again
-                            kinds = [e.kind for e in evs if e.kind in ("mp.join", "mp.terminate")]
-                            ok = kinds[:1] == ["mp.join"] and "mp.terminate" in kinds and kinds[-1] == "mp.join" and kinds.index("mp.terminate") < len(kinds) - 1
-                            rep.check(ok, "PAR.join", f"{site}:{joins[0].node.lineno}", "straggler reaped", "a worker still alive after the timed join is terminated and joined",
-                                      extracted=" ".join(kinds), required="join terminate join", function=site)
-                            good = [e for e in stores if isinstance(e.obj, Ref) and e.obj.oid in shared]
-                            rep.check(len(good) == 1, "TIMEOUT.row", f"{site}:{joins[0].node.lineno}", "terminated worker's row stored", "a worker that had to be terminated leaves one row in the shared result mapping",
-                                      extracted=f"{len(good)} store(s) into the shared mapping, {len(stores) - len(good)} elsewhere", required="1", function=site)
-                            for e in stores:
-                                n_store += 1
-                                key = e.key
-                                fam_ok = isinstance(key, ElemV) and key.role == "key" and (ev.fam != QF or key.var == ev.evar)
-                                rep.check(fam_ok, "PAR.key", f"{site}:{e.node.lineno}", "terminate-branch store key", "the row of a terminated worker is stored under that query's key",
-                                          extracted=repr(key), required="the query key", function=site)
-                                v = e.value
-                                okv = isinstance(v, TupleV) and len(v.items) == 4 and v.items[0] == key
-                                rep.check(okv, "PAR.key", f"{site}:{e.node.lineno}", "terminate-branch row index", "the row of a terminated worker carries that query's key", extracted=repr(v)[:100], required="(key, False, True, ..)", function=site)
-                        else:
-                            rep.check(len(joins) >= 1, "PAR.join", f"{site}:{joins[0].node.lineno}", "worker joined", "every started process is joined", extracted=f"{len(joins)} join(s)", required=">=1", function=site)
-                            # a worker that finished in time (or whose liveness was never looked at) keeps the row it stored
-                            over = [e for e in stores if isinstance(e.obj, Ref) and e.obj.oid in shared]
-                            rep.check(not over and not terms, "PAR.key", f"{site}:{joins[0].node.lineno}", "finished worker's row kept", "only a worker that is still alive after the timed join is terminated and reported as timed out; the row of a finished worker is not overwritten",
-                                      extracted=f"{len(over)} store(s) into the shared mapping, {len(terms)} terminate call(s) without an alive test", required="none", function=site)
-    # the rows handed back: for every submitted query the row its worker stored under the query's key; a query without a
-    # stored row (the worker died or was cut off) is reported as timed out with answer False
-    for p in paths:
-        if p.outcome[0] != "return":
-            continue
-        # what is returned: a mapping with, for every submitted query, either the row found in the shared mapping or a
-        # flagged row - and nothing else
-        rv = p.outcome[1]
-        rd = p.state.heap.get(rv.oid) if isinstance(rv, Ref) else None
-        if not isinstance(rd, HDict):
-            rep.violation("ROWS.key", site, "result", "multi_inference returns the mapping from query keys to rows", extracted=repr(rv)[:80], required="the result mapping", function=site)
-            continue
-        groups = {"present": 0, "absent": 0, "other": 0}
-        for e_ in rd.each:
-            _, b_, fam_, g_, kt_, vt_ = e_
-            if fam_ != QF or not (isinstance(kt_, ElemV) and kt_.var == b_ and kt_.role == "key"):
-                groups["other"] += 1
-            elif g_[0] == "in" and g_[1] == ("elem", b_, "key") and isinstance(g_[2], tuple) and g_[2][0] == "dict" and g_[2][1] in shared:
-                groups["present"] += 1
-            elif g_[0] == "not" and g_[1][0] == "in" and g_[1][1] == ("elem", b_, "key") and isinstance(g_[1][2], tuple) and g_[1][2][0] == "dict" and g_[1][2][1] in shared:
-                groups["absent"] += 1
-            else:
-                groups["other"] += 1
-        okg = not rd.entries and not rd.sym and groups == {"present": 1, "absent": 1, "other": 0}
-        rep.check(okg, "ROWS.key", site, "one row per query (parallel)", "the result has, for every submitted query, the row its worker left in the shared mapping or else a flagged row - decided by whether that query's key is in the shared mapping",
-                  extracted=f"{groups['present']} group(s) for stored rows, {groups['absent']} for missing rows, {groups['other']} other, {len(rd.entries)} literal entries", required="1 + 1 over the submitted queries", function=site)
-        loops = [ev for ev, Q in iter_events(p.events) if ev.kind == "loop" and not Q and ev.fam == ("members", ("keys", "Q"))]
-        for lp in loops:
-            for case in lp.cases:
-                present = None
-                for k, v in case.guard:
-                    if k[0] == "in" and k[1] == ("elem", lp.evar, "key") and isinstance(k[2], tuple) and k[2][0] == "dict":
-                        present = v
-                if present is None:
+        paths = ex.run(qual, setup, summaries=SUMMARIES, key=f"multi-{'-'.join(map(str, keys))}")
+        combos = set()
+        for p in paths:
+            slot0 = f"queries {list(keys)}"
+            if p.outcome[0] != "return":
+                rep.violation("ROWS.key", site, slot0, "multi_inference returns the mapping from query keys to rows", extracted=f"{p.outcome[0]} {p.outcome[1]!r}"[:100], required="the result mapping", function=site)
+                continue
+            evs = [ev for ev, Q in iter_events(p.events)]
+            shared = {ev.obj.oid for ev in evs if ev.kind == "mp.dict" and isinstance(ev.obj, Ref)}
+            procs = {}
+            for ev in evs:
+                if ev.kind == "mp.process":
+                    n_start += 1
+                    items = ev.args.items if isinstance(ev.args, TupleV) else ()
+                    k0 = items[0].value if items and isinstance(items[0], Const) else None
+                    where = f"{site}:{ev.node.lineno}"
+                    ok = len(items) >= 2 and k0 in keys and items[1] == ElemV(("q", k0), "cond")
+                    rep.check(ok, "PAR.key", where, "worker arguments", "each worker receives the query together with its own key", extracted=repr(items[:2]), required="(key of q, q)", function=site)
+                    okc = len(items) == 4 and isinstance(items[2], Ref) and items[2].oid in shared and items[3] == Sym("timeout", "int")
+                    rep.check(okc, "PAR.key", where, "worker container and budget", "each worker gets the shared result mapping and the per-query budget", extracted=repr(items[2:]), required="(shared mapping, timeout)", function=site)
+                    rep.check(isinstance(ev.target, FuncV) and ev.target.qualname == f"{INF}._multi_inference_worker", "PAR.key", where, "worker function", "the process runs the worker wrapper", extracted=repr(ev.target), required="_multi_inference_worker", function=site)
+                    if ok:
+                        procs.setdefault(k0, []).append(ev.obj.oid)
+            rep.check(sorted(procs) == sorted(keys) and all(len(v) == 1 for v in procs.values()), "PAR.key", site, f"one worker per submitted query ({slot0})", "exactly one worker is created for every submitted query",
+                      extracted=str({k: len(v) for k, v in procs.items()}), required=str({k: 1 for k in keys}), function=site)
+            key_of = {v[0]: k for k, v in procs.items()}
+            alive, present = {}, {}
+            for kk, vv in p.decisions:
+                if kk[0] == "alive" and kk[1] in key_of and key_of[kk[1]] not in alive:
+                    alive[key_of[kk[1]]] = vv
+                elif kk[0] == "in" and isinstance(kk[1], tuple) and kk[1][:1] == ("c",) and isinstance(kk[2], tuple) and kk[2][:1] == ("dict",) and kk[2][1] in shared:
+                    present[kk[1][1]] = vv
+            # per process: started, joined; a straggler terminated and joined again
+            for k in keys:
+                if k not in procs:
                     continue
-                evs = [e for e, _ in iter_events(case.events)]
-                sets = [e for e in evs if e.kind == "dict.set"]
-                gets = [e for e in evs if e.kind in ("dict.get.generic", "dict.get.unknown", "dict.get.symbolic") and isinstance(e.key, ElemV) and e.key.var == lp.evar]
-                for e in sets:
-                    okk = isinstance(e.key, ElemV) and e.key.var == lp.evar and e.key.role == "key"
-                    rep.check(okk, "PAR.key", f"{site}:{e.node.lineno}", f"result key ({'stored' if present else 'missing'} row)", "the result maps the query's key to its row", extracted=repr(e.key), required="the query key", function=site)
-                    if present:
-                        rep.check(len(gets) == 1, "PAR.key", f"{site}:{e.node.lineno}", "stored row handed back", "a query whose worker stored a row gets exactly that row (looked up under its own key)",
-                                  extracted=f"{len(gets)} lookup(s) under the query's key", required="1", function=site)
-                    else:
-                        v = e.value
-                        okr = isinstance(v, TupleV) and len(v.items) == 4 and isinstance(v.items[0], ElemV) and v.items[0].var == lp.evar and v.items[1] == Const(False) and v.items[2] == Const(True) and not gets
-                        rep.check(okr, "TIMEOUT.row", f"{site}:{e.node.lineno}", "missing row", "a query without a stored row is reported as timed out with answer False", extracted=repr(v)[:120], required="(key, False, True, budget)", function=site)
-    # terminate branch rows: answer False, timed-out flag
-    for p in paths:
-        for ev, Q in iter_events(p.events):
-            if ev.kind == "dict.set" and Q and any(k[0] == "alive" and v is True for k, v in Q[-1][1].guard):
-                v = ev.value
-                okr = isinstance(v, TupleV) and len(v.items) == 4 and v.items[1] == Const(False) and v.items[2] == Const(True)
-                rep.check(okr, "TIMEOUT.row", f"{site}:{ev.node.lineno}", "terminated worker's row", "a worker that had to be terminated is reported as timed out with answer False", extracted=repr(v)[:120], required="(key, False, True, ..)", function=site)
-    # every family that starts processes is also joined (loop over the same processes)
-    started = joined = False
-    for p in paths:
-        for ev, Q in iter_events(p.events):
-            if ev.kind == "mp.start":
-                started = True
-            if ev.kind == "mp.join":
-                joined = True
-    rep.check(started and joined, "PAR.join", site, "start/join pairing", "processes are started and joined", extracted=f"started={started}, joined={joined}", required="both", function=site)
+                oid = procs[k][0]
+                seq = [ev.kind for ev in evs if ev.kind in ("mp.start", "mp.join", "mp.terminate") and isinstance(ev.obj, Ref) and ev.obj.oid == oid]
+                rep.check(seq.count("mp.start") == 1 and seq[:1] == ["mp.start"], "PAR.join", site, "process started", "every created process is started (once, before anything else)", extracted=" ".join(seq), required="start ...", function=site)
+                if alive.get(k) is True:
+                    ok = "mp.terminate" in seq and seq[-1] == "mp.join" and "mp.join" in seq[:seq.index("mp.terminate")]
+                    rep.check(ok, "PAR.join", site, "straggler reaped", "a worker still alive after the timed join is terminated and joined", extracted=" ".join(seq), required="start join terminate join", function=site)
+                else:
+                    rep.check("mp.join" in seq, "PAR.join", site, "worker joined", "every started process is joined", extracted=" ".join(seq), required="start join", function=site)
+                    rep.check("mp.terminate" not in seq, "PAR.key", site, "finished worker's row kept", "only a worker that is still alive after the timed join is terminated and reported as timed out; the row of a finished worker is not overwritten",
+                              extracted=" ".join(seq) + (" (liveness never tested)" if k not in alive else ""), required="no terminate", function=site)
+            # the returned mapping
+            rv = p.outcome[1]
+            rd = p.state.heap.get(rv.oid) if isinstance(rv, Ref) else None
+            if not (isinstance(rd, HDict) and not rd.each):
+                rep.violation("ROWS.key", site, slot0, "multi_inference returns the mapping from query keys to rows", extracted=repr(rv)[:80], required="the result mapping", function=site)
+                continue
+            if rv.oid in shared:
+                rep.violation("ROWS.key", site, "one row per query (parallel)", "the result is a mapping of this process (the manager's mapping is gone when the manager shuts down)", extracted="the shared mapping itself", required="a plain dict", function=site)
+                continue
+            combos.add((tuple(sorted(alive.items())), tuple(sorted(present.items()))))
+            rep.check(sorted(rd.entries) == sorted(keys), "ROWS.key", site, "one row per query (parallel)", "the result has a row for exactly the submitted queries",
+                      extracted=f"{slot0}: keys {sorted(rd.entries, key=repr)}", required=str(sorted(keys)), function=site)
+            shared_oid = next(iter(shared)) if len(shared) == 1 else None
+            for k in keys:
+                if k not in rd.entries:
+                    continue
+                n_rows += 1
+                v = rd.entries[k]
+                flagged = isinstance(v, TupleV) and len(v.items) == 4 and v.items[0] == Const(k) and v.items[1] == Const(False) and v.items[2] == Const(True)
+                theirs = isinstance(v, Sym) and v.label == ("dictitem", ("dict", shared_oid), ("c", k))
+                case = f"alive={alive.get(k)}, row left={present.get(k)}"
+                if alive.get(k) is True:
+                    rep.check(flagged, "TIMEOUT.row", site, "terminated worker's row", "a worker that had to be terminated is reported as timed out with answer False, under its query's key",
+                              extracted=f"{slot0}, query {k} ({case}): {v!r}"[:200], required=f"({k}, False, True, ..)", function=site)
+                elif present.get(k) is True:
+                    rep.check(theirs, "PAR.key", site, "stored row handed back", "a query whose worker stored a row gets exactly that row (looked up under its own key)",
+                              extracted=f"{slot0}, query {k} ({case}): {v!r}"[:200], required=f"shared[{k}]", function=site)
+                elif present.get(k) is False:
+                    rep.check(flagged, "TIMEOUT.row", site, "missing row", "a query without a stored row is reported as timed out with answer False",
+                              extracted=f"{slot0}, query {k} ({case}): {v!r}"[:200], required=f"({k}, False, True, budget)", function=site)
+                else:
+                    rep.violation("ROWS.key", site, "one row per query (parallel)", "whether a finished worker left a row decides between that row and a flagged one",
+                                  extracted=f"{slot0}, query {k}: {v!r} without looking into the shared mapping"[:200], required="row found under the key, else a flagged row", function=site)
+        if keys and len(combos) < 3 ** len(keys):
+            # every query: straggler / finished with a row / finished without one
+            rep.violation("PAR.join", site, f"cases per query ({list(keys)})", "for every query the three cases are told apart: still alive after the timed join, finished with a row, finished without one",
+                          extracted=f"{len(combos)} combinations", required=f"{3 ** len(keys)}", function=site)
     stats["multi_process_sites"] = n_start
-    stats["multi_term_stores"] = n_store
+    stats["multi_rows"] = n_rows
     rep.floor("worker creation sites", n_start, 1)
+    rep.floor("rows of the parallel path evaluated", n_rows, 20)
 
 
 def _manager_rows(rep, ex: Explorer, stats):
